@@ -387,6 +387,10 @@ class CohGen:
                 if f['overloads'] and used_names and r.random() < 0.25:
                     nm = r.choice([n for n, kk in used_names.items() if kk == 'method'] or [nm])
                 a = margs()
+                if f['this_types'] and r.random() < 0.15:
+                    # the class itself as parameter type, spelled `This` (by reference, const reference or shared pointer)
+                    q = r.choice([(False, '&'), (True, '&'), (False, '*')])
+                    a = (S.Arg(S.T('This', (), (), q[0], q[1]), self.lname(), None),) + tuple(a)
                 ret = self.ret_type()
                 if tparams and ret.k == 'T' and not ret.args and not ret.ns and ret.name in SCALARS and r.random() < 0.4:
                     ret = S.T(r.choice(tparams))
